@@ -32,14 +32,14 @@ type schedClient struct {
 }
 
 type Sched struct {
-	spec    SchedSpec
-	rng     *Rng
-	clients []*schedClient
-	cur     int
-	events  chan schedEvent
-	Trace   []int
-	Sites   map[string]int
-	Yields  int
+	spec     SchedSpec
+	rng      *Rng
+	clients  []*schedClient
+	cur      int
+	events   chan schedEvent
+	Trace    []int
+	Sites    map[string]int
+	Yields   int
 	Switches int
 	changeAt map[int]bool
 }
